@@ -319,9 +319,11 @@ func (ex *Exec) runInitFrame(fr *frame, pkg *ssa.Package, last *ssa.Instruction)
 					continue
 				}
 			}
-			if c, ok := instr.(*ssa.Call); ok {
-				// a call that cannot be executed poisons only its result
-				if ex.tryInitCall(fr, c) {
+			switch instr.(type) {
+			case *ssa.If, *ssa.Jump, *ssa.Return, *ssa.Panic:
+			default:
+				// an instruction that cannot be executed poisons only its result
+				if ex.tryInitInstr(fr, instr) {
 					continue
 				}
 			}
@@ -337,7 +339,7 @@ type poisonVal struct{ why string }
 
 // tryInitCall executes a call in a package initialiser; on an engine error the
 // result becomes a poison value (reported only if it is ever used).
-func (ex *Exec) tryInitCall(fr *frame, c *ssa.Call) (handled bool) {
+func (ex *Exec) tryInitInstr(fr *frame, instr ssa.Instruction) (handled bool) {
 	depth, steps := ex.depth, ex.steps
 	defer func() {
 		if r := recover(); r != nil {
@@ -351,16 +353,19 @@ func (ex *Exec) tryInitCall(fr *frame, c *ssa.Call) (handled bool) {
 				panic(r)
 			}
 			ex.depth, ex.steps = depth, steps
-			n := c.Call.Signature().Results().Len()
-			pv := poisonVal{fmt.Sprintf("%s failed during package initialisation: %s", c.Call.Value.Name(), why)}
-			if n <= 1 {
-				fr.set(c, pv)
-			} else {
-				t := make(tuple, n)
-				for i := range t {
-					t[i] = pv
+			pv := poisonVal{fmt.Sprintf("%s failed during package initialisation: %s", instr.String(), why)}
+			if c, ok := instr.(*ssa.Call); ok {
+				if n := c.Call.Signature().Results().Len(); n > 1 {
+					t := make(tuple, n)
+					for i := range t {
+						t[i] = pv
+					}
+					fr.set(c, t)
+				} else {
+					fr.set(c, pv)
 				}
-				fr.set(c, t)
+			} else if v, ok := instr.(ssa.Value); ok {
+				fr.set(v, pv)
 			}
 			if ex.drv != nil {
 				ex.drv.note("init: " + pv.why)
@@ -368,7 +373,7 @@ func (ex *Exec) tryInitCall(fr *frame, c *ssa.Call) (handled bool) {
 			handled = true
 		}
 	}()
-	visitInstr(fr, c)
+	visitInstr(fr, instr)
 	return true
 }
 
